@@ -135,6 +135,13 @@ class HeapMixin:
         """z3 term of sort_of(kind) representing v, or Unsupported."""
         if v.kind == kind:
             return v.t
+        if v.kind.name == 'opt' and kind.name != 'opt' and kind != ANY:
+            # optional value where a plain one is needed: fork (None is an error of the code
+            # that the engine cannot represent in this field)
+            fv = self.force(v)
+            if fv.kind == NONE:
+                raise Unsupported(f'None where {kind} is required')
+            return self.coerce(fv, kind)
         if kind.name == 'opt':
             os_ = sort_of(kind)
             if v.kind == NONE:
